@@ -5,6 +5,7 @@ import AdeuModel.Lemmas.Grow
 import AdeuModel.Lemmas.ShownWith
 import AdeuModel.Lemmas.Threads
 import AdeuModel.Lemmas.NewComment
+import AdeuModel.Lemmas.EndToEnd
 /-
 C10 — comments requested with an edit or a reply are never lost or misattached (model-level clauses).
 -/
@@ -72,6 +73,52 @@ theorem C10_comment_shown_with_replacement (cm : CMap) (p : Para) (pre post : Li
     (hseg : (applyFormatting (runText r) (runMarkers r).1 (runMarkers r).2).isEmpty = false) :
     ∃ snap ∈ (metaGroups cm p).flatten, cid ∈ snap.comments ∧ ri.id ∈ snap.ins.map (·.1) :=
   comment_shown_with_replacement cm p pre post cid rd ri dr r hn hst hr hseg
+
+/-- **End to end** (engine model + reader model): let the session add a comment with `add_comment` and let a paragraph of the
+resulting document hold the range of that comment around an insertion, as `attachCommentNodes` leaves it. Then the raw
+view of that paragraph - read with the comment map of the *resulting* document - has a metadata block `{>>…<<}` that is
+built from a snapshot in which the insertion is open and that has a line `[Com:id] …` for the new comment. -/
+theorem C10_commented_insertion_end_to_end (s : Sess) (text : Str) (p : Para) (pre post : List Node) (rev : Rev) (r : Run)
+    (hn : p.nodes = pre ++ ([.cs (s.addComment text none).2, .ins rev [.run r], .ce (s.addComment text none).2,
+      .run (crefRun (s.addComment text none).2)] ++ post))
+    (hst : (stAfter {} pre 0).hide = false) (hr : r.ch.all isT = true)
+    (hseg : (applyFormatting (runText r) (runMarkers r).1 (runMarkers r).2).isEmpty = false) :
+    ∃ states : List Snap,
+      metaBlock (commentsMap (s.addComment text none).1.doc) states ∈
+        notesOf (rawSegs (commentsMap (s.addComment text none).1.doc) p) ∧
+      (∃ snap ∈ states, (s.addComment text none).2 ∈ snap.comments ∧ rev.id ∈ snap.ins.map (·.1)) ∧
+      ∃ l ∈ (states.foldl (metaStep (commentsMap (s.addComment text none).1.doc)) ([], [], [])).2.1,
+        comHead (s.addComment text none).2 <+: l := by
+  obtain ⟨dd, hd, _⟩ := addComment_read_back s text none
+  exact commented_insertion_rendered _ p pre post _ rev r dd hn hst hr hseg hd
+
+/-- The same chain for a commented pure deletion and a commented replacement. -/
+theorem C10_commented_deletion_end_to_end (s : Sess) (text : Str) (p : Para) (pre post : List Node) (rev : Rev) (r : Run)
+    (hn : p.nodes = pre ++ ([.cs (s.addComment text none).2, .del rev [r], .ce (s.addComment text none).2,
+      .run (crefRun (s.addComment text none).2)] ++ post))
+    (hseg : (applyFormatting (runText r) (runMarkers r).1 (runMarkers r).2).isEmpty = false) :
+    ∃ states : List Snap,
+      metaBlock (commentsMap (s.addComment text none).1.doc) states ∈
+        notesOf (rawSegs (commentsMap (s.addComment text none).1.doc) p) ∧
+      (∃ snap ∈ states, (s.addComment text none).2 ∈ snap.comments ∧ rev.id ∈ snap.del.map (·.1)) ∧
+      ∃ l ∈ (states.foldl (metaStep (commentsMap (s.addComment text none).1.doc)) ([], [], [])).2.1,
+        comHead (s.addComment text none).2 <+: l := by
+  obtain ⟨dd, hd, _⟩ := addComment_read_back s text none
+  exact commented_deletion_rendered _ p pre post _ rev r dd hn hseg hd
+
+theorem C10_commented_replacement_end_to_end (s : Sess) (text : Str) (p : Para) (pre post : List Node) (rd ri : Rev) (dr r : Run)
+    (hn : p.nodes = pre ++ ([.cs (s.addComment text none).2, .del rd [dr], .ins ri [.run r], .ce (s.addComment text none).2,
+      .run (crefRun (s.addComment text none).2)] ++ post))
+    (hst : (stAfter {} pre 0).hide = false) (hr : r.ch.all isT = true)
+    (hseg : (applyFormatting (runText r) (runMarkers r).1 (runMarkers r).2).isEmpty = false) :
+    ∃ states : List Snap,
+      metaBlock (commentsMap (s.addComment text none).1.doc) states ∈
+        notesOf (rawSegs (commentsMap (s.addComment text none).1.doc) p) ∧
+      (∃ snap ∈ states, (s.addComment text none).2 ∈ snap.comments ∧ ri.id ∈ snap.ins.map (·.1)) ∧
+      ∃ l ∈ (states.foldl (metaStep (commentsMap (s.addComment text none).1.doc)) ([], [], [])).2.1,
+        comHead (s.addComment text none).2 <+: l := by
+  obtain ⟨dd, hd, _⟩ := addComment_read_back s text none
+  exact commented_replacement_rendered _ p pre post _ rd ri dr r dd hn hst hr hseg hd
 
 /-- non-vacuity: `Hello {--big--}{++small++} world` with comment 7 on the replacement -/
 def shownPara : Para :=
